@@ -44,6 +44,10 @@ def gen_case(r, idx):
         tree[b"sparse-many-regions.l"] = Node("slink", 0o777, target=b"sparse-many-regions")
         tree[b"sparse-many-regions.z"] = Node("file", 0o600, data=[("bytes", b"after the sparse file")])
     # a sub directory with siblings whose names are string prefixes of its path (for sqfs2tar --subdir)
+    for q in [q for q in tree if q.split(b"/")[0] in (b"s", b"se", b"sel", b"other")]:
+        del tree[q]        # (a generated directory called "s" must not end up below the file "s")
+    for q in [q for q, n in tree.items() if n.link_to is not None and n.link_to not in tree]:
+        del tree[q]
     tree[b"sel"] = Node("dir", 0o755)
     tree[b"sel/ect"] = Node("dir", 0o750)
     tree[b"sel/ect/inner"] = Node("file", 0o644, data=[("bytes", b"inner")])
